@@ -58,6 +58,8 @@ def node_cases(thorough):
                     yield {"node": n, "shape": s, "axis": ax}
             for n in ["softmax", "log_softmax"]:
                 yield {"node": n, "shape": s, "axis": ax}
+                if len(s) >= 2:
+                    yield {"node": n + "_rowshift", "shape": s, "axis": ax}
             d = s[ax]
             idx_menu = [[0], [d - 1], list(range(d)), list(reversed(range(d))), [0, 0], [d - 1, 0, d - 1]]
             seen = set()
@@ -190,6 +192,19 @@ def build_node(spec, rng):
                 flat[-1] = 0.5
         return P.Parameter.from_unary(node, t), vals
     ax = spec.get("axis")
+    if n in ("softmax_rowshift", "log_softmax_rowshift"):
+        cls = P.SoftmaxParameter if n.startswith("softmax") else P.LogSoftmaxParameter
+        t = L1()
+        a = ax % len(s)
+        shape = [1] * len(s)
+        other = [d for d in range(len(s)) if d != a]
+        off = np.zeros(s)
+        for d in other:
+            sh = [1] * len(s)
+            sh[d] = s[d]
+            off = off - 450.0 * np.arange(s[d]).reshape(sh)
+        vals[t] = vals[t] + off - 300.0 * (int(rng.integers(3)))
+        return P.Parameter.from_unary(cls(s, axis=ax), t), vals
     if n in ("reduce_sum", "reduce_prod", "reduce_lse", "softmax", "log_softmax"):
         cls = {"reduce_sum": P.ReduceSumParameter, "reduce_prod": P.ReduceProductParameter, "reduce_lse": P.ReduceLSEParameter,
                "softmax": P.SoftmaxParameter, "log_softmax": P.LogSoftmaxParameter}[n]
